@@ -10,7 +10,7 @@ import (
 // Register wires the vquery checks.
 func Register() {
 	rig.SubCommands["gmsref"] = gmsRefMain
-	rig.SubCommands["probe"] = probeMain
+	rig.SubCommands["c26case"] = c26CaseMain
 	rig.Register(&rig.Spec{Prop: "C26", Level: "exploration", Stages: []rig.Stage{
 		{Name: "differential", Fn: c26, TimeoutQuick: 20 * time.Minute, TimeoutThorough: 6 * time.Hour},
 	}})
